@@ -138,6 +138,8 @@ func checkC16(p *Prog, r *Report) {
 		r.Undecided("R4", "field:HeartbeatManager.heartBeatNum", "", "counter field not found")
 	}
 
+	r.Rule("R11", "the heartbeat counter only grows: its only modification is sync/atomic Add with a positive constant — never a reset, store, swap or compare-and-swap (across stop and restart the published counter stays strictly increasing)")
+	monotoneCounterRule(p, ls, r, "R11", F("HeartbeatManager.heartBeatNum"))
 	r.Rule("R5", "the ticker period is the timeout handed to the loop or that timeout minus a non-negative constant under a guard 'timeout > constant' (never more than the timeout); the timeout handed over is the announced heartbeat timeout")
 	r.Rule("R6", "the refresh loop has a case receiving from its stop channel that returns; every tick refreshes the data through SetData of the local feature with a freshly drawn counter and the announced timeout")
 	c16Loop(p, ls, r)
@@ -536,4 +538,60 @@ func buildsHeartbeatData(fn *ssa.Function) bool {
 		}
 	}
 	return false
+}
+
+// monotoneCounterRule: a counter field only ever grows — every modification is
+// sync/atomic Add with a positive constant; no Store/Swap/CompareAndSwap, no plain
+// assignment outside construction (a reset makes numbers already handed out
+// reappear).
+func monotoneCounterRule(p *Prog, ls *Lockset, r *Report, rule, key string) {
+	fname := key[strings.Index(key, ".")+1:]
+	nMod := 0
+	seen := map[ssa.Instruction]bool{}
+	for _, fn := range ls.fns {
+		if isWrapper(fn) {
+			continue
+		}
+		for _, b := range fn.Blocks {
+			for _, ins := range b.Instrs {
+				fa, ok := ins.(*ssa.FieldAddr)
+				if !ok || fa.Referrers() == nil || fieldOfAddr(fa) == nil || fieldOfAddr(fa).Name() != fname || !strings.HasSuffix(Path(fa), "."+fname) {
+					continue
+				}
+				if n := namedOf(derefType(fa.X.Type())); n == nil || n.Obj().Name() != key[:strings.Index(key, ".")] {
+					continue
+				}
+				for _, ref := range *fa.Referrers() {
+					if seen[ref] {
+						continue
+					}
+					seen[ref] = true
+					switch x := ref.(type) {
+					case *ssa.Store:
+						if x.Addr == ssa.Value(fa) {
+							if al, isAl := fa.X.(*ssa.Alloc); isAl && al != nil {
+								continue // initialisation of an object under construction
+							}
+							nMod++
+							r.Fail(rule, fmt.Sprintf("field:%s|fn:%s|store", key, FnName(originOf(fn))), p.InstrPos(x), "the counter is assigned directly: values already handed out can reappear")
+						}
+					case *ssa.Call:
+						c := x.Call.StaticCallee()
+						if c == nil || fnPkgPath(c) != "sync/atomic" || strings.HasPrefix(c.Name(), "Load") {
+							continue
+						}
+						nMod++
+						okAdd := false
+						if strings.HasPrefix(c.Name(), "Add") && len(x.Call.Args) == 2 {
+							if k, isK := constInt(x.Call.Args[1]); isK && k > 0 {
+								okAdd = true
+							}
+						}
+						r.Check(rule, fmt.Sprintf("field:%s|fn:%s|atomic.%s", key, FnName(originOf(fn)), c.Name()), okAdd, p.InstrPos(x), "modification through sync/atomic."+c.Name()+"; required: Add with a positive constant (the counter only grows)")
+					}
+				}
+			}
+		}
+	}
+	r.Floor(rule, "modifications of "+key, nMod, 1)
 }
